@@ -514,17 +514,36 @@ def rand_plain(rng, n):
     return "".join(rng.choice("abcXYZ019 _") for _ in range(n))
 
 
+def big_struct(n):
+    from netqasm.sdk.classical_communication.message import StructuredMessage
+    return StructuredMessage(header="blob", payload=("blob", "y" * n))
+
+
 def rand_struct(rng):
-    k = rng.randrange(5)
+    """a StructuredMessage as applications send it (netqasm.sdk.classical_communication.message): a header string and an arbitrary picklable
+    payload; the payloads include the Python values whose identity a lossy encoding would change (tuples, integer / tuple dictionary keys, None,
+    bytes, nested mixes)"""
+    from netqasm.sdk.classical_communication.message import StructuredMessage
+    k = rng.randrange(9)
     if k == 0:
-        return rng.randrange(1 << 20)
-    if k == 1:
-        return [rng.randrange(2) for _ in range(rng.choice([1, 8, 64, 400]))]
-    if k == 2:
-        return ("basis", rng.randrange(2), "x" * rng.choice([1, 30]))
-    if k == 3:
-        return {"k": [1, 2, 3], "n": None}
-    return "m" * rng.choice([1, 10, 2000])
+        pl = rng.randrange(1 << 20)
+    elif k == 1:
+        pl = [rng.randrange(2) for _ in range(rng.choice([1, 8, 64, 400]))]
+    elif k == 2:
+        pl = ("basis", rng.randrange(2), "x" * rng.choice([1, 30]))
+    elif k == 3:
+        pl = {"k": [1, 2, 3], "n": None}
+    elif k == 4:
+        pl = {0: "X", 1: "Z", (1, 0): [("a", 1), ("b", 2)]}
+    elif k == 5:
+        pl = [(rng.randrange(2), rng.randrange(3)) for _ in range(rng.choice([1, 5, 40]))]
+    elif k == 6:
+        pl = bytes(rng.randrange(256) for _ in range(rng.choice([1, 16, 300])))
+    elif k == 7:
+        pl = {"outcomes": (0, 1, 1), "bases": {"alice": ("X", "Z"), 7: None}, "ok": True, "p": 0.25}
+    else:
+        pl = "m" * rng.choice([1, 10, 2000])
+    return StructuredMessage(header=rng.choice(["", "h", "basis info", "corrections"]), payload=pl)
 
 
 def pickled(m):
